@@ -3,7 +3,7 @@ CONSTANTS
   MaxTerm = 2
   MaxProposals = 1
   MaxCrashes = 1
-  MaxDrops = 1
+  MaxDrops = 0
   MaxDups = 0
   MaxHeartbeats = 0
   MaxLog = 3
